@@ -65,16 +65,53 @@ def grammar_rules(py: PyRepo):
 
 
 def encoder_keywords(py: PyRepo, meth: str):
-    """string constants starting with `$` (or containing one) that a postvisit method writes"""
+    """string constants starting with `$` (or containing one) that a postvisit method writes, in source order; calls of other
+    Encoder methods (extracted helpers) are followed with their constant string arguments bound to the helper's parameters"""
     ci = py.cls('Encoder', AST)
     fn = ci.methods.get(meth)
     if fn is None:
         return None
-    kws = []
-    for node in ast.walk(fn):
-        if isinstance(node, ast.Call) and ast.unparse(node.func) == 'self.write' and node.args and isinstance(node.args[0], ast.Constant) \
-                and isinstance(node.args[0].value, str):
-            kws += re.findall(r'\$[^\s]?', node.args[0].value)
+    kws: list = []
+
+    def ordered_calls(node):
+        for ch in ast.iter_child_nodes(node):
+            if isinstance(ch, (ast.FunctionDef, ast.Lambda)):
+                continue
+            if isinstance(ch, ast.Call):
+                # arguments first (evaluation order), then the call itself
+                yield from ordered_calls(ch)
+                yield ch
+            else:
+                yield from ordered_calls(ch)
+
+    def collect(f, bindings, depth):
+        for call in ordered_calls(f):
+            fname = ast.unparse(call.func)
+            if fname == 'self.write' and call.args:
+                a = call.args[0]
+                text = a.value if isinstance(a, ast.Constant) and isinstance(a.value, str) else (
+                    bindings.get(a.id) if isinstance(a, ast.Name) else None)
+                if isinstance(text, str):
+                    kws.extend(re.findall(r'\$[^\s]?', text))
+            elif fname.startswith('self.') and fname.count('.') == 1 and depth < 3:
+                h = fname[5:]
+                hit = py.find_method(ci, h)
+                if hit is not None and h not in ('write', 'visit') and not h.startswith(('postvisit_', 'previsit_', 'proxy_')) \
+                        and hit[0].module == AST:
+                    hf = hit[1]
+                    hp = [x.arg for x in hf.args.args[1:]]
+                    b = {}
+                    for pn, av in zip(hp, call.args):
+                        if isinstance(av, ast.Constant) and isinstance(av.value, str):
+                            b[pn] = av.value
+                        elif isinstance(av, ast.Name) and av.id in bindings:
+                            b[pn] = bindings[av.id]
+                    for k in call.keywords:
+                        if k.arg and isinstance(k.value, ast.Constant) and isinstance(k.value.value, str):
+                            b[k.arg] = k.value.value
+                    collect(hf, b, depth + 1)
+
+    collect(fn, {}, 0)
     return kws
 
 
@@ -93,14 +130,23 @@ def run(ctx):
     # (b) get_statement_type gives every constructible StructuredStatement subclass a letter
     gst = enc.methods.get('get_statement_type')
     ctx.require(gst is not None, 'anchor vanished: Encoder.get_statement_type')
+    # the dispatch as a list (class tested, letter returned) in test order: an if/elif chain of isinstance tests or a match
+    # statement with class patterns - read off the returning paths (the class whose test is the True one on that path)
+    from ..core.pyeval import PyEval
     chain = []
-    node = next((n for n in gst.body if isinstance(n, ast.If)), None)
-    while node is not None:
-        t = node.test
-        if isinstance(t, ast.Call) and ast.unparse(t.func) == 'isinstance':
-            ret = next((s.value.value for s in node.body if isinstance(s, ast.Return) and isinstance(s.value, ast.Constant)), None)
-            chain.append((ast.unparse(t.args[1]), ret))
-        node = node.orelse[0] if len(node.orelse) == 1 and isinstance(node.orelse[0], ast.If) else None
+    for pth in PyEval().paths(gst):
+        if pth.end[0] != 'return' or pth.end[1][0] != 'const':
+            continue
+        true_cls = []
+        for c, b in pth.conds:
+            if b is not True:
+                continue
+            if c[0] == 'isinstance' and c[2][0] == 'name':
+                true_cls.append(c[2][1])
+            elif c[0] == 'call' and c[1] == ('name', 'isinstance') and len(c[2]) == 2 and c[2][1][0] == 'name':
+                true_cls.append(c[2][1][1])
+        if len(true_cls) == 1:
+            chain.append((true_cls[0], pth.end[1][1]))
     structured = py.cls('StructuredStatement', AST)
     letters = {}
     for cls in sorted(built):
@@ -181,15 +227,24 @@ def run(ctx):
                        f'`{ast.unparse(node)[:70]}` asserts a constant that is always true: the branch that was meant to reject an '
                        f'unanticipated statement kind silently ignores it', py.where(mname, node))
     fn = py.function(SLICER, 'slice_database')
-    chain_if = [n for n in ast.walk(fn) if isinstance(n, ast.If) and 'isinstance(statement' in ast.unparse(n.test)]
+    # every path through the body of the loop over the statements either recognised the statement kind (some isinstance /
+    # match_axiom test on it was true) or raises: if-chain with a raising else, guard clauses with a final raise, .. alike
+    from ..core import astpaths
+    loops_ = [n for n in fn.body if isinstance(n, ast.For) and ast.unparse(n.iter).endswith('.statements') and isinstance(n.target, ast.Name)]
     ok = False
-    if chain_if:
-        node = chain_if[0]
-        while len(node.orelse) == 1 and isinstance(node.orelse[0], ast.If):
-            node = node.orelse[0]
-        ok = bool(node.orelse) and isinstance(node.orelse[-1], ast.Raise) or (
-            bool(node.orelse) and isinstance(node.orelse[-1], ast.Assert) and isinstance(node.orelse[-1].test, ast.Constant)
-            and not node.orelse[-1].test.value)
+    if len(loops_) == 1:
+        v = loops_[0].target.id
+        ok = True
+        # locals holding the result of a recogniser applied to the statement (`axiom_conclusion = match_axiom(statement)`)
+        holders = {st.targets[0].id for st in ast.walk(loops_[0]) if isinstance(st, ast.Assign) and len(st.targets) == 1
+                   and isinstance(st.targets[0], ast.Name) and isinstance(st.value, ast.Call) and ast.unparse(st.value.func) == 'match_axiom'
+                   and [ast.unparse(a) for a in st.value.args] == [v]}
+        for sp in astpaths.paths(loops_[0].body):
+            recognised = any(b is True and (re.search(rf'isinstance\({v}\b', c) or re.search(rf'match_axiom\({v}\)', c) or c in holders)
+                             for c, b in sp.conds)
+            raises = sp.end == 'raise' or any(isinstance(a, ast.Assert) and isinstance(a.test, ast.Constant) and not a.test.value for a in sp.actions)
+            if not recognised and not raises:
+                ok = False
     ctx.ob('dispatch-ends-raising', 'slice_database', ok,
            'the statement-kind dispatch of slice_database must end in a branch that raises for an unanticipated kind', py.where(SLICER, fn))
     slice_closure(ctx, py)
